@@ -121,7 +121,7 @@ func runC08(s *Sim) {
 	}
 
 	kind := c08Kinds[t.Choose("target", len(c08Kinds))]
-	behaviour := Pick(t, "behaviour", "drop", "answer", "delay", "misaddress", "disconnect", "silent-peer", "misaddress-spontaneous", "outage", "silent-peer")
+	behaviour := Pick(t, "behaviour", "drop", "answer", "delay", "misaddress", "disconnect", "silent-peer", "misaddress-spontaneous", "outage", "silent-peer", "refuse", "slow-resume")
 	position := t.Choose("position", 3) // which reply caused by the target is affected
 	ctxKind := Pick(t, "ctx", "bg", "deadline", "cancel", "cancel-yield")
 	target := c.mkOp(kind)
@@ -199,7 +199,7 @@ func runC08(s *Sim) {
 			if kind != "ReadDataPoints" && kind != "ReadMetadata" && kind != "ReceiveCall" && kind != "SendCall" && kind != "SendCallAndWait" {
 				bound = detect
 			}
-		case behaviour == "answer":
+		case behaviour == "answer" || behaviour == "refuse":
 			if kind != "ReadDataPoints" && kind != "ReadMetadata" && kind != "ReceiveCall" && kind != "SendCallAndWait" {
 				bound = 5 * time.Second
 				if kind == "Upstream.Close" || kind == "Downstream.Close" {
@@ -237,6 +237,12 @@ func runC08(s *Sim) {
 			if pendBefore[p] || containsPend(delayed, p) {
 				continue
 			}
+			if behaviour == "slow-resume" && outageStarted && (p.Desc == "upstream-resume" || p.Desc == "downstream-resume") {
+				// the broker is slow to answer resume requests on the new connection
+				delayed = append(delayed, p)
+				s.Stat("fault.resume-answer-delayed")
+				continue
+			}
 			idx := affected
 			affected++
 			if idx == position && behaviour != "answer" && behaviour != "silent-peer" {
@@ -267,6 +273,22 @@ func runC08(s *Sim) {
 				}
 				s.Stat("fault.disconnect")
 				s.Logf("fault: disconnect at %s", p.Desc)
+			case "refuse":
+				if refuseReply(p) {
+					s.Stat("fault.reply-with-failure-code")
+					s.Logf("fault: failure code in %s", p.Desc)
+				}
+				s.Broker.Release(p, nil)
+			case "slow-resume":
+				s.Broker.Drop(p)
+				if !outageStarted {
+					outageStarted = true
+					if p.Link.Alive() {
+						p.Link.Kill(errClosed, errClosed)
+					}
+					s.Stat("fault.disconnect")
+					s.Logf("fault: disconnect at %s, resume answers withheld", p.Desc)
+				}
 			case "outage":
 				s.Broker.Drop(p)
 				if !outageStarted {
@@ -349,6 +371,17 @@ func runC08(s *Sim) {
 			s.Violate("C08.ctx-ignored", "victim:"+victimKind+":while:"+kind, "%s with a %v deadline, issued while %s (ctx=%s, broker: %s) was in flight: %s", victimKind, victimTO, kind, target.ctxString(), behaviour, lateString(victim, d))
 		}
 	}
+	// once Conn.Close has returned the connection never comes back: a call that was waiting for it
+	// (whatever its context) must end too
+	for _, pair := range [][2]*Op{{target, victim}, {victim, target}} {
+		cl, other := pair[0], pair[1]
+		if cl == nil || other == nil || cl.Name != "Conn.Close" || !cl.harvested || other.harvested {
+			continue
+		}
+		if waited := s.Now() - cl.ReturnT; waited > 2*time.Second {
+			s.Violate("C08.blocked-after-conn-close", other.Name+":"+behaviour, "%s (ctx=%s) is still blocked %v after Conn.Close returned (broker behaviour %q)", other.Name, other.ctxString(), waited.Round(time.Millisecond), behaviour)
+		}
+	}
 	s.Nontrivial()
 
 	// ---- heal: the broker behaves again ----
@@ -425,6 +458,32 @@ func runC08(s *Sim) {
 		}
 	}
 	y.teardown()
+}
+
+// refuseReply turns a pending response into one that carries a failure code.
+func refuseReply(p *pend) bool {
+	const code = message.ResultCodeUnspecifiedError
+	switch m := p.Msg.(type) {
+	case *message.UpstreamOpenResponse:
+		m.ResultCode, m.ResultString = code, "refused"
+	case *message.UpstreamCloseResponse:
+		m.ResultCode, m.ResultString = code, "refused"
+	case *message.UpstreamResumeResponse:
+		m.ResultCode, m.ResultString = code, "refused"
+	case *message.DownstreamOpenResponse:
+		m.ResultCode, m.ResultString = code, "refused"
+	case *message.DownstreamCloseResponse:
+		m.ResultCode, m.ResultString = code, "refused"
+	case *message.DownstreamResumeResponse:
+		m.ResultCode, m.ResultString = code, "refused"
+	case *message.UpstreamMetadataAck:
+		m.ResultCode, m.ResultString = code, "refused"
+	case *message.UpstreamCallAck:
+		m.ResultCode, m.ResultString = code, "refused"
+	default:
+		return false
+	}
+	return true
 }
 
 func lateString(op *Op, d time.Duration) string {
